@@ -135,12 +135,24 @@ def _post_history(c, s, twin, post, tag):
     """Apply the same following history to the state under test and to the twin; every read must agree bit for bit."""
     import torch
 
+    from leaspy.exceptions import LeaspyModelInputError
+
     n_reads = 0
     for op in post:
         if op[0] == "read":
             for i in op[1]:
                 name = _pick(c["derived"], i)
-                got, ref = s[name], twin[name]
+                try:
+                    got = s[name]
+                except LeaspyModelInputError:
+                    # the model refuses to evaluate an incoherent (kept) population value - documented error family;
+                    # the twin holds the same values and must refuse as well; nothing further to compare
+                    try:
+                        twin[name]
+                    except LeaspyModelInputError:
+                        return n_reads
+                    raise Fail(f"{tag}:read-refused-only-on-the-state-with-a-rejection-history", name, "same outcome as the twin state")
+                ref = twin[name]
                 if not same(got, ref):
                     raise Fail(f"{tag}:later-read-differs-from-twin", f"{name} = {brief(got)}", f"{name} = {brief(ref)} (state in which the rejected part was never proposed)")
                 _check_scratch(c, s, name, tag)
@@ -152,7 +164,11 @@ def _post_history(c, s, twin, post, tag):
             d = _delta(c, s, name, vals, "normal")
             for st_ in (s, twin):
                 st_.put(name, d, accumulate=True)
-                st_[_pick(c["derived"], vi + 1)]
+                try:
+                    st_[_pick(c["derived"], vi + 1)]
+                except LeaspyModelInputError:
+                    st_.revert()
+                    continue
                 if not keep:
                     st_.revert()
         elif op[0] == "param":  # parameter update, as the maximisation step does (auto-fork off)
